@@ -1,5 +1,5 @@
 (** * CasesMovegen: evaluation helper for the C01 / C08 correspondence run (move generator model). *)
-From Coq Require Import NArith List Bool String.
+From Coq Require Import NArith ZArith List Bool String.
 From FG Require Import CasesLib MovegenImpl.
 Import ListNotations.
 
@@ -9,10 +9,10 @@ Definition gen_case (c : string * N * bool * bool * list N) : bool :=
 (* HasLegalMove: (fen, observed) *)
 Definition hlm_case (c : string * bool) : bool :=
   let '(fen, obs) := c in has_legal_case_ok (str_of_string fen) obs.
-(* on-demand drain: (fen, mode, evasion, UsePromNonQuiet, pv, killer0, killer1, first move delivered, codes sorted) *)
-Definition od_case (c : string * N * bool * bool * (N * N * N) * N * list N) : bool :=
-  let '(fen, mode, ev, pnq, (pv, k0, k1), first, obs) := c in
-  od_case_ok (str_of_string fen) mode ev pnq pv k0 k1 first obs.
+(* on-demand drain: (fen, p.GamePhase(), mode, evasion, UsePromNonQuiet, pv, killer0, killer1, the moves in the order delivered) *)
+Definition od_case (c : string * Z * N * bool * bool * (N * N * N) * list N) : bool :=
+  let '(fen, gp, mode, ev, pnq, (pv, k0, k1), obs) := c in
+  od_case_gp_ok (str_of_string fen) gp mode ev pnq pv k0 k1 obs.
 
 Fixpoint mism {A} (f : A -> bool) (i : nat) (l : list A) : list nat :=
   match l with [] => [] | c :: r => (if f c then [] else [i]) ++ mism f (S i) r end.
